@@ -9,10 +9,19 @@ import (
 func (e *Engine) lemmaObligations(id string) []*Obligation {
 	var res []*Obligation
 	for _, a := range e.axiomDecls {
-		if !a.Lemma || !hasProp(a.Props, id) {
+		if !a.Lemma || !hasProp(a.Props, id) || a.ByFunc != "" {
 			continue
 		}
 		o := &Obligation{Name: "lemma/" + a.Name, Func: "lemma", Kind: "lemma", Goal: a.term, Props: a.Props, Groups: map[string]bool{a.Group: true}}
+		if len(a.From) > 0 {
+			o.Groups = map[string]bool{}
+			for _, g := range a.From {
+				if g == a.Group {
+					panic("lemma " + a.Name + " would be proved from its own group")
+				}
+				o.Groups[g] = true
+			}
+		}
 		res = append(res, o)
 	}
 	return res
